@@ -166,6 +166,52 @@ def check_unevaluable(ctx, doc, toks, why):
     ctx.case(h(canon(doc), text))
 
 
+def text_document_history(ctx, doc, allnodes):
+    """The document supplied as JSON text: what comes back belongs to the caller, who may change
+    it (or patch the same text) before resolving against the same text again.  Every resolution
+    must still follow the text."""
+    import json
+
+    import jsonpath
+
+    r = ctx.rng
+    text = json.dumps(doc)
+    fresh = json.loads(text)
+    conts = [(loc, v) for loc, v in allnodes if isinstance(v, (list, dict))][:6]
+    for loc, _v in conts:
+        got = impl.call(lambda: jsonpath.pointer.resolve(rp.encode(rp.tokens_of(loc)), text, unicode_escape=False))
+        if got.ok and isinstance(got.value, list):
+            got.value.append("SCRIBBLE")
+            got.value[:1] = ["SCRIBBLE"]
+        elif got.ok and isinstance(got.value, dict):
+            got.value["SCRIBBLE"] = 1
+            for k in list(got.value)[:1]:
+                del got.value[k]
+    impl.call(lambda: jsonpath.patch.apply([{"op": "add", "path": "", "value": {"replaced": True}}], text))
+    impl.call(lambda: jsonpath.JSONPatch().add("/SCRIBBLE2", 1).apply(text))
+    impl.call(lambda: [m.obj.clear() for m in jsonpath.finditer("$..*", text) if isinstance(m.obj, (list, dict))])
+    for loc, _v in allnodes[:40]:
+        toks = rp.tokens_of(loc)
+        ptr = rp.encode(toks)
+        ctx.evaluation()
+        want = rp.resolve(fresh, toks)
+        got = impl.call(lambda: jsonpath.pointer.resolve(ptr, text, unicode_escape=False))
+        ctx.count("text_document_resolutions_after_result_mutation")
+        if not got.ok or canon(got.value) != canon(want):
+            ctx.violation("resolution-against-json-text-depends-on-earlier-results-being-mutated", {"text_history": True, "doc": doc, "pointer": ptr}, {"pointer": ptr, "got": got.desc() if not got.ok else canon(got.value)[:120], "expected": canon(want)[:120]})
+            return
+        ex = impl.call(lambda: jsonpath.JSONPointer(ptr, unicode_escape=False).exists(text))
+        if not ex.ok or ex.value is not True:
+            ctx.violation("exists-against-json-text-depends-on-earlier-results-being-mutated", {"text_history": True, "doc": doc, "pointer": ptr}, {"pointer": ptr})
+            return
+    for loc, v in conts[:3]:
+        toks = rp.tokens_of(loc) + ["SCRIBBLE" if isinstance(v, dict) else str(len(v))]
+        got = impl.call(lambda: jsonpath.pointer.resolve(rp.encode(toks), text, default="DEFAULT", unicode_escape=False))
+        if not got.ok or got.value != "DEFAULT":
+            ctx.violation("unevaluable-pointer-resolves-against-json-text-after-earlier-results-were-mutated", {"text_history": True, "doc": doc, "pointer": rp.encode(toks)}, {"pointer": rp.encode(toks), "got": got.desc() if not got.ok else canon(got.value)[:120]})
+            return
+
+
 def run(spec, ctx):
     r = ctx.rng
     names = [n for n in gen.ALL_NAMES if not re.fullmatch(r"[0-9]{16,}", n)]
@@ -198,6 +244,8 @@ def run(spec, ctx):
                     continue  # evaluable
                 except rp.Unresolvable as e:
                     check_unevaluable(ctx, doc, m, str(e))
+        if i % 6 == 0:
+            text_document_history(ctx, doc, allnodes)
         if i % 40 == 0 and allnodes:
             loc, val = allnodes[-1]
             ctx.sample({"pointer": rp.encode(rp.tokens_of(loc)), "resolves_to": canon(val)[:60], "doc": canon(doc)[:160]})
@@ -217,6 +265,9 @@ def finalize(m, tier):
 
 
 def replay(case, ctx):
+    if case.get("text_history"):
+        text_document_history(ctx, case["doc"], list(nodes(case["doc"])))
+        return
     doc = case["doc"]
     toks = rp.decode(case["pointer"])
     if case["expect"] == "resolves":
